@@ -201,6 +201,7 @@ class Facts:
         self.rewriter = None
         self.alignment = None
         helper_keys = None
+        closure_keys = None
         ref = reference_shape()
         if ref:
             al = canon.Alignment(canon.shape_of(lib_j), ref)
@@ -208,8 +209,9 @@ class Facts:
             self.rewriter = canon.Rewriter(al)
             self.rewriter.rewrite(lib_j)
             helper_keys = {self.rewriter._k(k) for k in al.unmatched_fns}
+            closure_keys = {self.rewriter._k(k) for k in al.unmatched_closures}
         known = json.load(open(os.path.join(VERIF, 'rules', 'tables', 'known_functions.json')))['names']
-        self.lib = mir.Crate(None, known_names=set(known), preloaded=lib_j, helper_keys=helper_keys)
+        self.lib = mir.Crate(None, known_names=set(known), preloaded=lib_j, helper_keys=helper_keys, closure_keys=closure_keys)
         self._roots = None
         self._mono = None
         self.meta = json.load(open(os.path.join(d, 'ok.json')))
